@@ -97,6 +97,7 @@ Section Run.
   Variable defs : list evdef.
   Variable mode : qmode.
   Variables top protected : list ev.
+  Variable preds : list (ev * ev).
   Variable nmodels : nat.
   Definition FUEL := 600.
 
@@ -104,8 +105,8 @@ Section Run.
     match sched with
     | [] => ([], s)
     | e :: r =>
-        let k := step_kind top s e in
-        let s' := step defs mode top protected FUEL s e in
+        let k := step_kind top preds s e in
+        let s' := step defs mode top protected preds FUEL s e in
         let new := skipn (length (h_log (s_sh s))) (h_log (s_sh s')) in
         let o := L [N k; L (flat_map e_item new); L (flat_map e_cancelled new);
                     L (newly_done (s_tasks s) (s_tasks s'));
@@ -120,19 +121,21 @@ End Run.
 Definition d_mode (x : sx) : option qmode :=
   match x with N 0 => Some QNone | N 1 => Some QShared | N 2 => Some QPerModel | _ => None end.
 
-(* case := [class; queued; nstates; model initial states; events; top; protected; schedule]
+(* case := [class; queued; nstates; model initial states; events; top; protected; schedule; preds]
+   preds = pairs (e, p): e is awaited in the asyncio task that awaited p before
    (class and nstates do not influence the model: flat and hierarchical async machines agree on flat
    configurations; destinations are registered by construction of the generator) *)
 Definition run_asyncconc_case (x : sx) : sx :=
   match x with
-  | L [_; q; _; ms; evs; tp; pr; sc] =>
-      match d_mode q, d_list d_nat ms, d_list d_event evs, d_list d_nat tp, d_list d_nat pr, d_list d_nat sc with
-      | Some mode, Some inits, Some defs, Some top, Some prot, Some sched =>
-          let (os, s) := run_steps defs mode top prot (length inits) (init_state mode inits) sched in
+  | L [_; q; _; ms; evs; tp; pr; sc; pd] =>
+      match d_mode q, d_list d_nat ms, d_list d_event evs, d_list d_nat tp, d_list d_nat pr, d_list d_nat sc,
+            d_list (d_pair d_nat d_nat) pd with
+      | Some mode, Some inits, Some defs, Some top, Some prot, Some sched, Some preds =>
+          let (os, s) := run_steps defs mode top prot preds (length inits) (init_state mode inits) sched in
           if s_oof s then L [N 9]
           else L [N 1; L os;
                   L (flat_map (fun t => if finished t then [] else [N (t_id t)]) (s_tasks s))]
-      | _, _, _, _, _, _ => L [N 0]
+      | _, _, _, _, _, _, _ => L [N 0]
       end
   | _ => L [N 0]
   end.
